@@ -162,6 +162,11 @@ def dispatch(E, c, tc, args):
         if isinstance(d, VSeq):
             d.items.append(args[1])
             return UNIT
+    if re.match(r"^std::vec::Vec::<.*>::pop$", c, re.S):
+        r = ref_chain(E, args[0])
+        d = E.read_ref(r)
+        if isinstance(d, VSeq):
+            return some(d.items.pop()) if d.items else NONE()
     if re.match(r"^std::vec::Vec::<.*>::(iter|iter_mut)$", c, re.S) or re.search(r"<impl \[.*\]>::(iter|iter_mut)$", c):
         r = ref_chain(E, args[0])
         d = E.read_ref(r)
@@ -434,6 +439,15 @@ def dispatch(E, c, tc, args):
             meth = tc[2]
             if meth == "next":
                 if it.pos >= len(it.items):
+                    return NONE()
+                v = it.items[it.pos]
+                it.pos += 1
+                return some(v)
+            if meth == "nth":
+                k = conc(E, deref(E, args[1]).t, "nth")
+                it.pos += k
+                if it.pos >= len(it.items):
+                    it.pos = len(it.items)
                     return NONE()
                 v = it.items[it.pos]
                 it.pos += 1
